@@ -272,6 +272,46 @@ func (c *C04Copy) Run() string {
 					}
 				}
 			}
+			// the generated per-type functions and the native selection along every axis
+			if lerr == nil && d.Name != "uintptr" && d.Name != "unsafe.Pointer" && extra == "" {
+				fn := []string{"", "Vector", "Matrix", "Tensor3"}[len(c.A.Shape)]
+				flat, dims, err := callTypedNative(fn, d, t, 0)
+				if err != nil {
+					extra = fmt.Sprintf("native.%s for %s refused what the generic conversion accepted: %v", fn, d.Name, err)
+					return
+				}
+				if !eqInts(dims, c.A.Shape) || len(flat) != len(A.arr.E) {
+					extra = fmt.Sprintf("native.%s for %s has dimensions %v, expected %v", fn, d.Name, dims, c.A.Shape)
+					return
+				}
+				for k := range flat {
+					if !bitEqVal(flat[k], A.arr.E[k]) {
+						extra = fmt.Sprintf("native.%s for %s: element %d is %s, expected %s", fn, d.Name, k, fmtVal(flat[k]), fmtVal(A.arr.E[k]))
+						return
+					}
+				}
+				for axis := range c.A.Shape {
+					flat, dims, err := callTypedNative("Select", d, t, axis)
+					if err != nil {
+						extra = fmt.Sprintf("native.Select(axis %d) for %s refused: %v", axis, d.Name, err)
+						return
+					}
+					rows := prod(c.A.Shape[:axis+1])
+					if len(c.A.Shape) == 1 {
+						rows = 1
+					}
+					if len(dims) != 2 || dims[0] != rows || len(flat) != len(A.arr.E) {
+						extra = fmt.Sprintf("native.Select(axis %d) for %s on shape %v has dimensions %v (%d elements), expected %d rows", axis, d.Name, c.A.Shape, dims, len(flat), rows)
+						return
+					}
+					for k := range flat {
+						if !bitEqVal(flat[k], A.arr.E[k]) {
+							extra = fmt.Sprintf("native.Select(axis %d) for %s: element %d is %s, expected %s", axis, d.Name, k, fmtVal(flat[k]), fmtVal(A.arr.E[k]))
+							return
+						}
+					}
+				}
+			}
 			sharing = true
 		default:
 			panic("HARNESS: unknown copy op " + c.Op)
